@@ -219,3 +219,48 @@ func writeDerived(id string, info *derivedInfo) string {
 	os.WriteFile(p, []byte(info.Text), 0o644)
 	return p
 }
+
+
+// unsupportedRules are the grammar rules the query model cannot represent; BaseVisitor reports each with an
+// error (C07 kernel contracts). A visitor type that overrides one of these Enter methods would silently
+// accept the construct for the part of the tree it handles, so no other type in package frontend may declare
+// them (derived, structural obligation over the method sets of the package).
+var unsupportedRules = []string{"Profile", "BulkImportQuery", "PeriodicCommitHint", "Union", "Command", "Foreach", "Start", "CaseExpression", "LegacyListExpression", "Reduce", "ExistentialSubquery", "LegacyParameter", "Explain", "LoadCSV"}
+
+func unsupportedOverrides(w *World) (overrides []string, checked int) {
+	pkg := w.typesPkgs[repoModule+"/cypher/frontend"]
+	if pkg == nil {
+		return []string{"package cypher/frontend not loaded"}, 0
+	}
+	want := map[string]bool{}
+	for _, r := range unsupportedRules {
+		want["EnterOC_"+r] = true
+	}
+	for _, name := range pkg.Scope().Names() {
+		tn, ok := pkg.Scope().Lookup(name).(*types.TypeName)
+		if !ok {
+			continue
+		}
+		named, ok := tn.Type().(*types.Named)
+		if !ok {
+			continue
+		}
+		for i := 0; i < named.NumMethods(); i++ {
+			m := named.Method(i)
+			if want[m.Name()] {
+				checked++
+				if name != "BaseVisitor" {
+					overrides = append(overrides, name+"."+m.Name())
+				}
+			}
+		}
+	}
+	// every rule must still be declared on BaseVisitor
+	for _, r := range unsupportedRules {
+		if _, ok := w.funcs[repoModule+"/cypher/frontend.BaseVisitor.EnterOC_"+r]; !ok {
+			overrides = append(overrides, "BaseVisitor.EnterOC_"+r+" is missing")
+		}
+	}
+	sort.Strings(overrides)
+	return overrides, checked
+}
